@@ -148,6 +148,25 @@ def shape_family():
     return out
 
 
+def greedy_family():
+    """A literal and an undefined nonterminal (or a command) expected at the same point inside a
+    word: the script's within-word matcher is greedy (first literal that begins the rest, no
+    backtracking), the text says the nonterminal matches anything.  -> list of (statements, probes, forced queries)"""
+    def lit(t):
+        return ('lit', t, None)
+    out = []
+    e = ('seq', [('sub', [lit('--x='), ('alt', [lit('abc'), ('nt', 'U')])]), lit('z')])
+    out.append(([('call', 'cmd', e)], Probes(),
+                [(['--x=abcd'], ''), (['--x=abc'], ''), (['--x=q'], ''), (['--x=ab'], ''), ([], '--x=a'), ([], '--x=abcd'), ([], '')]))
+    e = ('alt', [('seq', [('sub', [lit('k:'), ('alt', [lit('on'), lit('off'), ('nt', 'V')])]), lit('y')]), lit('w')])
+    out.append(([('call', 'cmd', e)], Probes(),
+                [(['k:one'], ''), (['k:on'], ''), (['k:offer'], ''), (['k:x'], ''), ([], 'k:o'), ([], 'k:')]))
+    pr = Probes()
+    e = ('seq', [('sub', [lit('p='), ('fb', [lit('ab'), ('nt', 'U')])]), lit('z')])
+    out.append(([('call', 'cmd', e)], pr, [(['p=abc'], ''), (['p=ab'], ''), (['p=q'], ''), ([], 'p=')]))
+    return out
+
+
 class RGen:
     """Random grammars biased to stay inside C01's domain: per-text descriptions are consistent,
     within-word literal sets are prefix-free, probe outputs come from alphabets disjoint from the
@@ -420,7 +439,8 @@ def parse_meaning(line):
 
 
 def flags(a):
-    return dict(ambiguous=a[0] == '1', piece_boundary=a[1] == '1', last_word_escape=a[2] == '1')
+    return dict(ambiguous=a[0] == '1', piece_boundary=a[1] == '1', last_word_escape=a[2] == '1',
+                greedy_shadow=len(a) > 3 and a[3] == '1')
 
 
 def judge(spec, got):
